@@ -176,6 +176,9 @@ pub enum Step {
     /// ownership probe: move the handle into `Vec::<Float>::from(..)` (succeeds iff it is the sole owner of
     /// its buffer), then rebuild the array (values, flag, stashed gradient) in the same slot
     ProbeSole { h: usize },
+    /// a custom operation (`Array::op`) whose forward closure panics is applied to the handle and the panic is
+    /// caught: a refused call. Nothing may change - not the value, not the handle's flags, not its gradient.
+    RefusedOp { h: usize },
 }
 
 #[derive(Clone, Debug, PartialEq, Serialize, Deserialize, Default)]
